@@ -7,7 +7,7 @@ CHECKS = {
  "C06": dict(
   text="Coq theorems over ALL strings: the default partition's guard accepts a foreign partition's key id iff the partition ids are equal; "
        "the suffixed guard is characterised exactly as a prefix match, so isolation is proved outside the prefix relation and REFUTED inside it "
-       "(known finding B). Model tied to the code by running real sessions over adversarial id pairs and comparing ids + guard outcome inside Coq.",
+       "(known finding B). Model tied to the code by running real sessions over adversarial id pairs and comparing ids + guard outcome inside Coq; concurrent GetSession calls for different partitions (session-cache schedule family, free-running rounds): a record produced through the session handed out for p names p's key id.",
   note="Trusted: Coq kernel+VM; Print Assumptions = closed; fmt.Sprintf/strings.Index modelled as append/prefix; differential tie is testing. "
        "Partial: suffixed sessions violate the full statement (known_findings.json C06-B).",
   technique="Coq proof (string injectivity lemmas) + differential correspondence + impl monitor", design="6/C06"),
